@@ -1869,3 +1869,22 @@ TABLE["C14"] += [
       ("scripts/pybind_wrap.py", "        sources = args.src.split(';')\n", "        sources = [os.path.abspath(src) for src in args.src.split(';')]\n"),
       ("scripts/pybind_wrap.py", "import argparse\n", "import argparse\nimport os.path\n")),
 ]
+_GF_A = "        for i, overload in enumerate(function):\n            param_wrap += '      if' if i == 0 else '      elseif'\n            param_wrap += ' length(varargin) == '\n\n            if len(overload.args.list()) == 0:"
+_GF_DEDUP = "        overloads = []\n        for overload in function:\n            if overload.args.to_cpp() not in (o.args.to_cpp() for o in overloads):\n                overloads.append(overload)\n"
+TABLE["C05"] += [
+    B("class-file-name-clipped", {"I13"},
+      (MX, "        if len(instantiated_class.ctors) != 0:\n            return instantiated_class.ctors[0].name\n\n        return instantiated_class.name\n",
+       "        if len(instantiated_class.ctors) != 0:\n            return instantiated_class.ctors[0].name[:63]\n\n        return instantiated_class.name[:63]\n")),
+    B("class-file-named-in-lower-case-beyond-a-length", {"I13"},
+      (MX, "\n        return instantiated_class.name\n", "\n        name = instantiated_class.name\n        return name if len(name) < 32 else name[:32] + name[32:].lower()\n")),
+    B("free-function-branches-from-a-reduced-list", {"I10"},
+      (MW, _GF_A, _GF_DEDUP + _GF_A.replace("enumerate(function)", "enumerate(overloads)"))),
+    N("free-function-branches-and-ids-from-a-reduced-list",
+      (MW, _GF_A, _GF_DEDUP + _GF_A.replace("enumerate(function)", "enumerate(overloads)")),
+      (MW, "                                                function[i], 'global_function',", "                                                overloads[i], 'global_function',")),
+]
+TABLE["C10"] += [
+    B("class-file-name-clipped", {"T19"},
+      (MX, "        if len(instantiated_class.ctors) != 0:\n            return instantiated_class.ctors[0].name\n\n        return instantiated_class.name\n",
+       "        if len(instantiated_class.ctors) != 0:\n            return instantiated_class.ctors[0].name[:63]\n\n        return instantiated_class.name[:63]\n")),
+]
